@@ -42,7 +42,8 @@ def probe_bonds():
                 m.AddBond(2, 0, bt)
             Chem.FastFindRings(m)
             keep.append(m)
-            out.append((kind_name(bt), ring, m.GetBondWithIdx(0)))
+            b = m.GetBondWithIdx(0)
+            out.append((kind_name(bt), bool(b.IsInRing()), b))   # RDKit finds no ring through zero-order/dative bonds
     return out, keep
 
 
